@@ -103,6 +103,10 @@ def _const_eval(e: ast.AST, env: dict):
         return ops[type(e.op)]()
     if isinstance(e, ast.Call) and isinstance(e.func, ast.Name) and e.func.id in ("int", "float") and len(e.args) == 1:
         return {"int": int, "float": float}[e.func.id](_const_eval(e.args[0], env))
+    if isinstance(e, ast.Call) and isinstance(e.func, ast.Attribute) and e.func.attr == "sqrt" and len(e.args) == 1 \
+            and isinstance(e.func.value, ast.Name) and e.func.value.id in ("np", "numpy", "math"):
+        import math
+        return math.sqrt(_const_eval(e.args[0], env))
     raise ValueError("not const")
 
 
